@@ -35,7 +35,7 @@ SecondClauses(e) ==
   \cup (IF e.raised = 0 /\ e.conv_same = 0 THEN {"SecondCallEqualsFreshObject"} ELSE {})     \* also in its reported status
   \cup (IF e.raised = 0 /\ e.third_flagged = 0 THEN {"FaultFlagged"} ELSE {})                 \* a failing later run is not reported converged
 Step(e) ==
-  CASE e.op = "start" -> /\ m' = LoopInit("fixed") /\ N' = e.num_iter
+  CASE e.op = "start" -> /\ m' = LoopStart("fixed", e.num_iter) /\ N' = e.num_iter
                          /\ (IF MBOk(e) THEN TRUE ELSE Bad(e, "MassBalance"))
     [] e.op = "iter" ->  /\ N' = N
                          /\ IF ~IterEnabled(m, N) THEN m' = m /\ Bad(e, "LoopStructure")
